@@ -81,16 +81,16 @@ func VerifTokenListContainsValue(h http.Header, name, value string) bool {
 	return tokenListContainsValue(h, name, value)
 }
 func VerifParseExtensions(h http.Header) []map[string]string { return parseExtensions(h) }
-func VerifEqualASCIIFold(s, t string) bool                  { return equalASCIIFold(s, t) }
-func VerifCheckSameOrigin(r *http.Request) bool             { return checkSameOrigin(r) }
-func VerifIsValidChallengeKey(s string) bool                { return isValidChallengeKey(s) }
-func VerifComputeAcceptKey(s string) string                 { return computeAcceptKey(s) }
-func VerifHostPortNoPort(u *url.URL) (string, string)       { return hostPortNoPort(u) }
-func VerifNextToken(s string) (string, string)              { return nextToken(s) }
-func VerifNextTokenOrQuoted(s string) (string, string)      { return nextTokenOrQuoted(s) }
-func VerifSkipSpace(s string) string                        { return skipSpace(s) }
-func VerifIsValidReceivedCloseCode(code int) bool           { return isValidReceivedCloseCode(code) }
-func VerifIsTokenOctet(b byte) bool                         { return isTokenOctet[b] }
+func VerifEqualASCIIFold(s, t string) bool                   { return equalASCIIFold(s, t) }
+func VerifCheckSameOrigin(r *http.Request) bool              { return checkSameOrigin(r) }
+func VerifIsValidChallengeKey(s string) bool                 { return isValidChallengeKey(s) }
+func VerifComputeAcceptKey(s string) string                  { return computeAcceptKey(s) }
+func VerifHostPortNoPort(u *url.URL) (string, string)        { return hostPortNoPort(u) }
+func VerifNextToken(s string) (string, string)               { return nextToken(s) }
+func VerifNextTokenOrQuoted(s string) (string, string)       { return nextTokenOrQuoted(s) }
+func VerifSkipSpace(s string) string                         { return skipSpace(s) }
+func VerifIsValidReceivedCloseCode(code int) bool            { return isValidReceivedCloseCode(code) }
+func VerifIsTokenOctet(b byte) bool                          { return isTokenOctet[b] }
 
 // VerifHTTPProxyDial runs httpProxyDialer.DialContext with the given forward
 // dial function.
